@@ -204,6 +204,12 @@ def features(case):
     return f
 
 
+KNOWN_KEYS = set()
+for _c in CAT:
+    for _d in (_c[2], _c[3]):
+        KNOWN_KEYS |= set(_d) | set(_d.get("table_properties", {}))
+
+
 def _delta(t, b):
     """what the clause(s) added to or changed in the clause-free table b (table_properties compared entry by entry)"""
     got = {}
@@ -262,6 +268,8 @@ def evaluate(case):
                 if k not in got or (k == "table_properties" and set(want.get(k, {})) - set(got.get(k, {}) if isinstance(got.get(k), dict) else {})):
                     sym = "clause-key-lost"
                 elif k not in want:
+                    if k not in KNOWN_KEYS:
+                        continue  # a key no catalogued clause writes: not judged (extra information never alarms)
                     sym = "unexpected-key"
                 D.append(diff("clause delta at %s (mode %s)" % (k, m), sym, short(want.get(k, "<absent>"), 200), short(got.get(k, "<absent>"), 200)))
     for k in b:
